@@ -47,3 +47,44 @@ def nonperiodic_end_insert(case, params):
     k = [Fr(x) for x in b['knots']]
     end = k[len(k) - b['order']]
     return any(Fr(x) == end for x in case.get('knots', []))
+
+
+def _dir_flags(b):
+    from collections import Counter
+    k = [Fr(x) for x in b['knots']]
+    p = b['order']
+    s, e = k[p - 1], k[len(k) - p]
+    m = Counter(k)
+    return dict(jump=any(v >= p and s < x < e for x, v in m.items()),
+                nonopen=(b['periodic'] < 0 and (k[0] < s or k[-1] > e)),
+                periodic=b['periodic'] >= 0)
+
+
+def order_jump_knot(case, params):
+    """raise_order / set_order on an object that has an interior knot of multiplicity >= order (the object
+    itself may jump there): the Greville collocation matrix is singular (LinAlgError or non-finite result)"""
+    o = _obj(case)
+    if o is None or not any(w in case.get('what', '') for w in ('LinAlgError', 'non-finite')):
+        return False
+    return any(_dir_flags(b)['jump'] for b in o['bases'])
+
+
+def order_nonopen(case, params):
+    """raise_order / set_order on an object with a non-periodic direction whose knot vector is not open
+    (first/last knot outside the domain): Greville points fall outside the domain, the interpolation
+    problem is singular or the call raises"""
+    o = _obj(case)
+    if o is None or not any(w in case.get('what', '') for w in ('LinAlgError', 'non-finite', 'RuntimeError', 'ValueError')):
+        return False
+    if 'raise_order' not in case.get('what', ''):
+        return False
+    return any(_dir_flags(b)['nonopen'] for b in o['bases'])
+
+
+def lower_order_periodic(case, params):
+    """lower_order on an object with a periodic direction raises NameError (undefined knot_spans in
+    BSplineBasis.lower_order)"""
+    o = _obj(case)
+    if o is None or 'lower_order' not in case.get('what', '') or 'NameError' not in case.get('what', ''):
+        return False
+    return any(_dir_flags(b)['periodic'] for b in o['bases'])
